@@ -241,7 +241,7 @@ PROPS = {
         module="Hb.Props.C02",
         ties=[("scen", "mixed", 300, 10000), ("scen", "saturate", 80, 3000), ("scen", "entry-full", 120, 4000),
               ("scen", "table", 150, 5000), ("scen", "set", 100, 3000), ("scen", "iter", 100, 3000),
-              ("scen", "panic-mixed", 4, 120), ("scen", "reserve", 100, 3000), ("custom", miri_support)],
+              ("scen", "panic-mixed", 4, 120), ("scen", "reserve", 100, 3000), ("scen", "clone", 80, 3000), ("custom", miri_support)],
         backends=["sse2", "portable"],
         design="§7 C02",
         text="Proof of the index/ownership logic: in the Lean model every raw access is checked (control byte outside "
@@ -266,7 +266,7 @@ PROPS = {
     "C03": dict(
         module="Hb.Props.C03",
         ties=[("scen", "mixed", 300, 10000), ("scen", "iter", 150, 4000), ("scen", "entry", 150, 4000),
-              ("scen", "table", 120, 4000), ("scen", "set", 100, 3000), ("scen", "reserve", 100, 3000),
+              ("scen", "table", 120, 4000), ("scen", "set", 100, 3000), ("scen", "reserve", 100, 3000), ("scen", "clone", 80, 3000),
               ("scen", "par", 80, 2000, ["sse2"])],
         backends=["sse2", "portable"],
         design="§7 C03",
